@@ -15,14 +15,14 @@ subprocess.run(['git', '-C', '/repo', 'worktree', 'add', '-q', '--detach', wt, '
 res = {'repo_head': subprocess.run(['git', '-C', '/repo', 'rev-parse', '--short', 'HEAD'], capture_output=True, text=True).stdout.strip()}
 try:
     env = dict(os.environ, PYTHONPATH=wt)
-    demo = sorted(glob.glob(os.path.join(src, 'demo_*.py')))[0]
+    demo = os.path.join(src, os.environ['DEMO_NAME']) if os.environ.get('DEMO_NAME') else sorted(glob.glob(os.path.join(src, 'demo_*.py')))[0]
     shutil.copy(demo, wt)
     dn = os.path.basename(demo)
     if os.environ.get('BASE_DIFF'):
         subprocess.run(['git', '-C', wt, 'apply', os.environ['BASE_DIFF']], check=True)
     r0 = subprocess.run(['/venv/bin/python', dn], cwd=wt, env=env, capture_output=True, text=True, timeout=600)
     res['demo_exit_without_change'] = r0.returncode
-    a = subprocess.run(['git', '-C', wt, 'apply', '-3', os.path.join(src, 'patch.diff')], capture_output=True, text=True)
+    a = subprocess.run(['git', '-C', wt, 'apply', '-3', os.path.join(src, os.environ.get('PATCH_NAME', 'patch.diff'))], capture_output=True, text=True)
     if a.returncode:
         print('PATCH DOES NOT APPLY', a.stderr); res['applies'] = False
     else:
@@ -50,12 +50,12 @@ try:
     if ok:
         d = f'/verif/seeded/{name}'
         os.makedirs(d, exist_ok=True)
-        shutil.copy(os.path.join(src, 'patch.diff'), d)
+        shutil.copy(os.path.join(src, os.environ.get('PATCH_NAME', 'patch.diff')), os.path.join(d, 'patch.diff'))
         shutil.copy(demo, d)
         if os.environ.get('BASE_DIFF'):
             shutil.copy(os.environ['BASE_DIFF'], os.path.join(d, 'base.diff'))
         meta = {}
-        mp = os.path.join(src, 'meta.json')
+        mp = os.path.join(src, os.environ.get('META_NAME', 'meta.json'))
         if os.path.exists(mp):
             try: meta = json.load(open(mp))
             except Exception: meta = {'raw': open(mp).read()}
